@@ -32,6 +32,9 @@ type HCase struct {
 	// During[i], if not empty, is a resource (held or not): mutation i is made (and flushed) while a
 	// get request on that resource is scanning the index.
 	During []string `json:"during,omitempty"`
+	// Defer[i]: the client does not react to what mutation i published (resets, query events)
+	// until the next mutation has been made and flushed as well.
+	Defer []bool `json:"defer,omitempty"`
 }
 
 func (c HCase) String() string { b, _ := json.Marshal(c); return string(b) }
@@ -245,8 +248,12 @@ func runHandler(c HCase) (msg string, nontrivial bool) {
 	replySeq := 0
 	during := false
 	_ = during
+	pendingMark := -1
 	for i, op := range c.Ops {
 		mark := conn.LogLen()
+		if pendingMark >= 0 {
+			mark = pendingMark // the client has not looked at what the previous mutations published yet
+		}
 		var merr error
 		done := false
 		if i < len(c.During) && c.During[i] != "" {
@@ -273,9 +280,17 @@ func runHandler(c HCase) (msg string, nontrivial bool) {
 			merr = m.mutate(op)
 		}
 		if merr != nil {
-			continue
+			if pendingMark < 0 || i < len(c.Ops)-1 {
+				continue
+			}
 		}
 		m.qs.Flush()
+		if i < len(c.Defer) && c.Defer[i] && i < len(c.Ops)-1 {
+			// the client deals with this mutation's messages together with the next one's
+			pendingMark = mark
+			continue
+		}
+		pendingMark = -1
 		// what was published for this mutation
 		var resets []string
 		queryEvents := map[string][]string{} // rname -> subjects
@@ -409,6 +424,7 @@ func TestC14Handler(t *testing.T) {
 				d = rapid.SampledFrom(pool).Draw(rt, "duringRID")
 			}
 			c.During = append(c.During, d)
+			c.Defer = append(c.Defer, rapid.IntRange(0, 3).Draw(rt, "defer") == 0)
 		}
 		msg, nt := runHandler(c)
 		ev.Case(nt, evid.Hash("handler", c.String()), "handler")
